@@ -397,8 +397,38 @@ def _cromer(ctx, F, R="R4"):
     c = sp.Symbol("c0", real=True)
     cm = I.instantiate(CM, ["Fe", list(a), list(b), c], {}, name="cmf", open_attrs=())
     s = sp.Symbol("s", positive=True)
-    val = I.call(I.getattr(cm, "atstol"), [s], {})
     inside = sum(ai * sp.exp(-bi * s ** 2) for ai, bi in zip(a, b)) + c
+    # concrete abscissae first (decided whatever shape the implementation has): the fitted range is closed, 0 <= s <= 6
+    pts = [sp.Integer(0), sp.Integer(3), sp.Integer(6), sp.Integer(6) + sp.Rational(1, 10 ** 6), sp.Integer(7)]
+
+    def okpt(got_, s_):
+        if s_ > 6:
+            return got_ is sp.nan or sp.sympify(got_) is sp.nan
+        try:
+            return sp.simplify(sp.sympify(got_) - inside.subs(s, s_)) == 0
+        except (TypeError, sp.SympifyError):
+            return False
+    rr_v = raises(lambda: I.call(I.getattr(cm, "atstol"), [Vec(list(pts))], {}))
+    if rr_v is not None:
+        ctx.fail(R, "atstol on a vector of concrete abscissae (0, 3, 6, 6.000001, 7)", f"raises {rr_v}", s_at)
+    else:
+        vv0 = I.call(I.getattr(cm, "atstol"), [Vec(list(pts))], {})
+        okshape = isinstance(vv0, Vec) and len(vv0) == len(pts)
+        ctx.check(okshape, R, "atstol on a vector gives one value per abscissa", f"{_s(vv0, 120)}", s_at)
+        if okshape:
+            for s_, g_ in zip(pts, vv0.items):
+                ctx.check(okpt(g_, s_), R, f"atstol at s = {float(s_):g} (vector call): " + ("NaN beyond the fitted range" if s_ > 6 else "the fitted sum (the range is closed at 6)"),
+                          f"value {_s(g_, 80)}", s_at, witness=f"stol={float(s_):g}")
+    for s_ in pts:
+        rr_s = raises(lambda: I.call(I.getattr(cm, "atstol"), [s_], {}))
+        if rr_s is not None:
+            ctx.fail(R, f"atstol at s = {float(s_):g} (scalar call)", f"raises {rr_s}", s_at)
+            continue
+        g_ = I.call(I.getattr(cm, "atstol"), [s_], {})
+        g_ = g_.items[0] if isinstance(g_, Vec) and len(g_) == 1 else g_
+        ctx.check(okpt(g_, s_), R, f"atstol at s = {float(s_):g} (scalar call): " + ("NaN beyond the fitted range" if s_ > 6 else "the fitted sum (the range is closed at 6)"),
+                  f"value {_s(g_, 80)}", s_at, witness=f"stol={float(s_):g}")
+    val = I.call(I.getattr(cm, "atstol"), [s], {})
     arms = algebra._arms(sp.sympify(val))
     fin = [(ex, cs) for ex, cs in arms if not ex.has(sp.nan)]
     nans = [(ex, cs) for ex, cs in arms if ex.has(sp.nan)]
